@@ -22,8 +22,19 @@
 (*                             payload is read after the record went back  *)
 (*                             onto the free list                          *)
 (*                   = FALSE : repaired order (read, then push)            *)
+(*                             (all configurations of the check use FALSE; *)
+(*                             TRUE is kept to show that the invariants    *)
+(*                             catch the defect: LFCache_aswritten.cfg     *)
+(*                             yields a 36-state behaviour in which one    *)
+(*                             value is returned by two get() calls, which *)
+(*                             the replayer reproduced on the real code)   *)
 (* Spurious = TRUE : compare_exchange_weak may fail although the head      *)
 (*                   equals the expected value                             *)
+(*                                                                         *)
+(* Invariants (property C19): AtMostOnce, OnlyInserted, FailedInsertKeeps, *)
+(* Drain (at quiescence).  Bindings: Emit / EmitPath export transitions /  *)
+(* behaviours for harness/lfcache_replay.cpp; LFCacheTrace.tla validates   *)
+(* recorded executions of the real code.                                   *)
 (***************************************************************************)
 EXTENDS Naturals, Sequences, FiniteSets, TLC, Json
 
